@@ -24,7 +24,7 @@ if os.path.exists('seeded/SWEEP.json'):
     for r in json.load(open('seeded/SWEEP.json')):
         sweep[r['seed']] = r
 srows = []
-tot = first = now = 0
+tot = first = now = gone = 0
 for d in sorted(glob.glob('seeded/C*-v*/'), key=lambda s: (s.split('/')[1].split('-')[0], int(s.split('-v')[1].strip('/')))):
     sid = d.split('/')[1]
     m = json.load(open(d + 'meta.json'))
@@ -47,6 +47,10 @@ for d in sorted(glob.glob('seeded/C*-v*/'), key=lambda s: (s.split('/')[1].split
     if not missed_first and caught_now: first += 1
     if caught_now: now += 1
     status = 'caught at first run' if (caught_now and not missed_first) else ('caught after strengthening' if caught_now else '**not caught**')
+    if sw and not sw.get('applies') and not caught_now:
+        status = 'no longer applies (the code it changes was repaired since)'
+        gone += 1
+        now += 1
     if m.get('neutralised'):
         status = 'made harmless by a later repair (its demonstration passes with the change)'
         if not caught_now:
@@ -55,7 +59,7 @@ for d in sorted(glob.glob('seeded/C*-v*/'), key=lambda s: (s.split('/')[1].split
     if len(summ) > 150: summ = summ[:147] + '…'
     srows.append(f'| {sid} | {summ} | {status} | {keys} |')
 seeds = '| seed | change (agent\'s summary) | outcome | reporting rules (own property) |\n|---|---|---|---|\n' + '\n'.join(srows)
-seeds += f'\n\n{tot} seeded changes; {first} reported by their own property\'s check at the first run, {now} after strengthening, {tot-now} not caught.'
+seeds += f'\n\n{tot} seeded changes; {first} reported by their own property\'s check at the first run, {now-gone} after strengthening, {gone} no longer apply to the repaired tree and were not reported by their own property when they last did, {tot-now} not caught.'
 # CANARIES
 crow = []
 ctot = 0
